@@ -47,11 +47,14 @@ def decide(run: core.Run, rule: str, search):
         d = run.corr_disagreements[0]
         broken.append({"what": "correspondence", "detail": f"{len(run.corr_disagreements)} operations on which model and code disagree",
                        "first": {k: (v[:3000] if isinstance(v, str) else v) for k, v in d.items()}})
+    found_by = {"seed": run.seed, "budget": getattr(run, "budget", 1)}
     if broken and not violations and not known_hits:
         # a broken proof or correspondence is not by itself a violation: search for a failing input
         run.notes.append("searching the real code for a failing input (larger budget)")
         try:
             srun = search()
+            if srun.failures:
+                found_by = {"seed": srun.seed, "budget": getattr(srun, "budget", 1)}
             for f in srun.failures:
                 if f["key"] not in open_keys:
                     violations.append(f)
@@ -67,7 +70,8 @@ def decide(run: core.Run, rule: str, search):
     if violations:
         f = violations[0]
         path = core.write_replay(prop, f["key"], {"property": prop, "key": f["key"], "desc": f["desc"], "input": f["replay"],
-                                                   "seed": run.seed, "tier": run.tier, "others": len(violations) - 1,
+                                                   "seed": run.seed, "tier": run.tier, "found_by": found_by,
+                                                   "others": len(violations) - 1,
                                                    "also_broken": broken})
         lines.append(f"VIOLATION property={prop} replay={path}")
         lines.append(f"  {f['key']}: {f['desc'][:300]}")
@@ -91,6 +95,7 @@ THOROUGH_BUDGET = {"C10": 40, "C14": 60, "C15": 20}
 
 def run_property(prop: str, tier: str, seed: int, budget: int, with_lean=True) -> core.Run:
     run = core.Run(prop, tier, seed)
+    run.budget = budget
     if with_lean:
         run.lean = core.prepare_lean(prop)
     rng = random.Random(f"{prop}:{seed}:{budget}")
@@ -129,14 +134,21 @@ def replay(path: str) -> int:
         rc, lines, _ = decide(run, "", lambda: run_property(prop, "quick", int(obj.get("seed", 0)) + 1, 3, with_lean=False))
         print("\n".join(lines))
         return rc
-    from harness import replay as RP
-    ok, msg = RP.replay_input(prop, obj["key"], obj["input"])
-    print(msg)
-    if ok:
-        print("property holds on the recorded input now")
-        return 0
-    print(f"VIOLATION property={prop} replay={path}")
-    return 1
+    # the workloads are deterministic functions of (property, seed, budget): regenerate the run that found the
+    # input and look for the same failure on the current tree
+    fb = obj.get("found_by") or {"seed": obj.get("seed", 0), "budget": 1}
+    run = run_property(prop, obj.get("tier", "quick"), int(fb["seed"]), int(fb["budget"]), with_lean=(prop == "C10"))
+    same = [f for f in run.failures if f["key"] == obj["key"]]
+    exact = [f for f in same if json.dumps(f["replay"], default=str, sort_keys=True) == json.dumps(obj["input"], default=str, sort_keys=True)
+             or str(f["replay"]) == str(obj["input"])]
+    if exact or same:
+        f = (exact or same)[0]
+        print(f"  {f['key']}: {f['desc'][:300]}" + ("" if exact else "  (same kind of failure, on another input of the regenerated workload)"))
+        print(f"VIOLATION property={prop} replay={path}")
+        return 1
+    print(f"the regenerated workload (seed {fb['seed']}, budget {fb['budget']}) no longer fails with '{obj['key']}': "
+          "property holds on the recorded input now")
+    return 0
 
 
 def main():
